@@ -56,8 +56,10 @@ def run_demo(copy, seed, label):
         os.makedirs(os.path.join(copy, "examples"), exist_ok=True)
         dst = os.path.join(copy, "examples", "seed_demo.rs")
         shutil.copy(demo_rs, dst)
-        rc, out = sh("cargo run --offline --example seed_demo 2>&1 | tail -30", cwd=copy, env=env)
+        rc, out = sh("bash -o pipefail -c 'cargo run --offline --example seed_demo 2>&1 | tail -30'", cwd=copy, env=env)
         os.unlink(dst)
+        if rc == 0 and ("panicked at" in out or out.rstrip().endswith("Aborted")):
+            rc = 101
         return rc, out[-1500:]
     return None, "no demo found"
 
